@@ -157,7 +157,42 @@ theorem listItems_spec (s : List Char) : ∀ i ∈ listItems s,
 
 /-! ## exception class of a failed conversion -/
 
-theorem stdConv_error (ct : Nat) (hct : ct ≤ 8) (v : Val) (e : Err) (h : stdConvFn ct v = .error e) :
+theorem cellBool_error (t : BoolTables) (v : Val) (e : Err) (h : cellBool t v = .error e) :
+    e = .valueError := by
+  unfold cellBool at h
+  split at h
+  · cases h
+  · split at h
+    · cases h
+    · split at h
+      · cases h
+      · cases h; rfl
+
+theorem cellBool_ok (t : BoolTables) (v : Val) (x : StdV) (h : cellBool t v = .ok x) :
+    x = .none ∨ x = .bool true ∨ x = .bool false := by
+  unfold cellBool at h
+  split at h
+  · cases h; exact Or.inl rfl
+  · split at h
+    · cases h; exact Or.inr (Or.inl rfl)
+    · split at h
+      · cases h; exact Or.inr (Or.inr rfl)
+      · cases h
+
+/-- `CellBool` with any tables: a value of the none table is `None` whatever the other tables say, else a value
+of the true table is `True`, else a value of the false table is `False`; nothing else is accepted -/
+theorem cellBool_spec (t : BoolTables) (v : Val) :
+    (inTable t.noneInts t.noneStrs t.noneNone v = true → cellBool t v = .ok .none) ∧
+    (inTable t.noneInts t.noneStrs t.noneNone v = false →
+      (inTable t.trueInts t.trueStrs t.trueNone v = true → cellBool t v = .ok (.bool true)) ∧
+      (inTable t.trueInts t.trueStrs t.trueNone v = false →
+        (inTable t.falseInts t.falseStrs t.falseNone v = true → cellBool t v = .ok (.bool false)) ∧
+        (inTable t.falseInts t.falseStrs t.falseNone v = false → cellBool t v = .error .valueError))) := by
+  unfold cellBool
+  refine ⟨fun h => by simp [h], fun h => ⟨fun h1 => by simp [h, h1], fun h1 => ⟨fun h2 => by simp [h, h1, h2],
+    fun h2 => by simp [h, h1, h2]⟩⟩⟩
+
+theorem stdConv_error (ct : Nat) (hct : ct ≤ 12) (v : Val) (e : Err) (h : stdConvFn ct v = .error e) :
     e = .valueError := by
   unfold stdConvFn at h
   match ct, hct with
@@ -167,13 +202,7 @@ theorem stdConv_error (ct : Nat) (hct : ct ≤ 8) (v : Val) (e : Err) (h : stdCo
     split at h
     · cases h
     · cases v <;> simp at h <;> exact h.symm
-  | 2, _ =>
-    simp only [] at h
-    split at h
-    · cases h
-    · split at h
-      · cases h
-      · cases h; rfl
+  | 2, _ => exact cellBool_error _ v e h
   | 3, _ => simp only [] at h; split at h <;> cases h
   | 4, _ =>
     simp only [] at h
@@ -184,5 +213,6 @@ theorem stdConv_error (ct : Nat) (hct : ct ≤ 8) (v : Val) (e : Err) (h : stdCo
   | 6, _ => cases v <;> simp at h <;> exact h.symm
   | 7, _ => cases v <;> simp at h <;> exact h.symm
   | 8, _ => cases v <;> simp at h <;> exact h.symm
+  | 9, _ | 10, _ | 11, _ | 12, _ => exact cellBool_error _ v e h
 
 end Xls
